@@ -5,38 +5,49 @@
     Vocabulary (C06/Model.v, C06/Spec.v):
     - [run fx ops] the repository model (AddRuleSet / UpdateRuleSet / DeleteRuleSet of
       repository_impl.go over the abstract index) after the history [ops]; [fx]
-      says which of the candidate repairs fixes/C06-F3/F4/F5.diff the code
-      contains ([no_fix]: none) — the theorems hold for every [fx];
+      says which of the repairs of C06-F3 / F4 / F5 the code contains:
+      [all_fix] is the tree as it is now (fix: commits 2d9cd1f, 003095f, f6ce52b),
+      [no_fix] the pinned commit;
     - [current ops] the rule sets that exist after [ops] according to the
       specification: a creation / update that can be applied ([spec_ok]: all
       path expressions valid, no expression owned by another rule set) replaces
       the set, one that cannot is ignored, a deletion removes it;
     - [fresh fx S] the model after loading the sets [S] once into an empty instance;
     - [wf_history] a rule set is only created when it does not exist;
-    - [no_guard_fx fx ops] none of the guards of the findings C06-F1 … F6 that the
-      code still has fires on [ops]; [no_guard_fx no_fix] is all six guards.
-      ([guard_F3] and [guard_F5] are about node compression and stale key names,
-      which the abstract index does not have; they are hypotheses here because the
-      implementation is only claimed to behave like this model outside them — see
-      the level note.  With the repairs they are not needed.) *)
+    - [open_guards ops] one of the guards of the OPEN findings fires on [ops]:
+      C06-F1 (order after an update), C06-F2 (node flag), C06-F6 (duplicate ids);
+    - [no_guard_fx fx ops] no guard of a finding that the code [fx] has fires;
+      [no_guard_fx no_fix] is all six guards.  ([guard_F3] and [guard_F5] are about
+      node compression and stale key names, which the abstract index does not
+      have; for the pinned commit they are hypotheses because the implementation
+      is only claimed to behave like this model outside them.) *)
 From HV Require Import Base.Prelude C06.Pat C06.Model C06.Spec C06.Tree C06.Proofs C06.Witness.
 
-(** the index after any history is the index of a fresh load of the current
-    rule sets (the index is kept in a canonical order, so this is equality) *)
-Theorem C06_history_equals_fresh : forall fx ops,
+(** THE TREE AS IT IS NOW: the index after any history is the index of a fresh
+    load of the current rule sets (the index is kept in a canonical order, so this
+    is equality) — outside the guards of the three open findings *)
+Theorem C06_history_equals_fresh : forall ops,
+  wf_history ops = true -> open_guards ops = false ->
+  index (run all_fix ops) = index (fresh all_fix (current ops)).
+Proof. exact now_history_equals_fresh. Qed.
+Print Assumptions C06_history_equals_fresh.
+
+(** the same for every combination of the repairs, in particular the pinned
+    commit ([no_fix]: all six guards) *)
+Theorem C06_history_equals_fresh_any : forall fx ops,
   wf_history ops = true -> no_guard_fx fx ops = true ->
   index (run fx ops) = index (fresh fx (current ops)).
 Proof. exact history_equals_fresh. Qed.
-Print Assumptions C06_history_equals_fresh.
+Print Assumptions C06_history_equals_fresh_any.
 
 (** hence every request, under every outcome of the rules' conditions, finds the
     same rule as in a fresh instance *)
-Theorem C06_lookups_equal_fresh : forall fx ops,
-  wf_history ops = true -> no_guard_fx fx ops = true ->
+Theorem C06_lookups_equal_fresh : forall ops,
+  wf_history ops = true -> open_guards ops = false ->
   forall pinned_lookup path (conditions : route -> bool),
-    find_rule pinned_lookup (index (run fx ops)) path conditions =
-    find_rule pinned_lookup (index (fresh fx (current ops))) path conditions.
-Proof. exact lookups_equal_fresh. Qed.
+    find_rule pinned_lookup (index (run all_fix ops)) path conditions =
+    find_rule pinned_lookup (index (fresh all_fix (current ops))) path conditions.
+Proof. exact now_lookups_equal_fresh. Qed.
 Print Assumptions C06_lookups_equal_fresh.
 
 (** a rejected change leaves the repository unchanged — for every state and
@@ -47,79 +58,81 @@ Proof. exact rejected_is_noop. Qed.
 Print Assumptions C06_rejected_is_noop.
 
 (** after any history, an operation is rejected exactly when it cannot be applied
-    (invalid path expression, expression owned by another rule set), and then
-    nothing changes *)
-Theorem C06_rejected_iff_cannot_apply : forall fx ops o,
-  wf_history (ops ++ [o]) = true -> no_guard_fx fx (ops ++ [o]) = true ->
-  exists st' res, step fx (run fx ops) o = (st', res) /\
-    (res = None <-> spec_ok (current ops) o = true) /\ (res <> None -> st' = run fx ops).
-Proof. exact rejected_iff_cannot_apply. Qed.
+    (invalid path expression, incompatible wildcard names, expression owned by
+    another rule set), and then nothing changes *)
+Theorem C06_rejected_iff_cannot_apply : forall ops o,
+  wf_history (ops ++ [o]) = true -> open_guards (ops ++ [o]) = false ->
+  exists st' res, step all_fix (run all_fix ops) o = (st', res) /\
+    (res = None <-> spec_ok (current ops) o = true) /\ (res <> None -> st' = run all_fix ops).
+Proof. exact now_rejected_iff_cannot_apply. Qed.
 Print Assumptions C06_rejected_iff_cannot_apply.
 
 (** rules of deleted or replaced versions never match again: whatever a lookup
     returns belongs to the current version of an existing rule set *)
-Theorem C06_deleted_never_match : forall fx ops,
-  wf_history ops = true -> no_guard_fx fx ops = true ->
+Theorem C06_deleted_never_match : forall ops,
+  wf_history ops = true -> open_guards ops = false ->
   forall pinned_lookup path conditions r,
-    find_rule pinned_lookup (index (run fx ops)) path conditions = Some r ->
+    find_rule pinned_lookup (index (run all_fix ops)) path conditions = Some r ->
     In (r_def r) (get_set (current ops) (r_src r)).
-Proof. exact found_is_current. Qed.
+Proof. exact now_found_is_current. Qed.
 Print Assumptions C06_deleted_never_match.
 
 (** same-source constraint: the rules sharing a path expression come from one rule set *)
-Theorem C06_same_source_constraint : forall fx ops,
-  wf_history ops = true -> no_guard_fx fx ops = true ->
-  forall q n x y, get (index (run fx ops)) q = Some n -> In x (vals n) -> In y (vals n) -> rt_src x = rt_src y.
-Proof. exact node_has_one_source. Qed.
+Theorem C06_same_source_constraint : forall ops,
+  wf_history ops = true -> open_guards ops = false ->
+  forall q n x y, get (index (run all_fix ops)) q = Some n -> In x (vals n) -> In y (vals n) -> rt_src x = rt_src y.
+Proof. exact now_node_has_one_source. Qed.
 Print Assumptions C06_same_source_constraint.
 
-(** ** the findings: each guard fires on a history on which the property fails
-    (for the code without the candidate repairs: [run] is [Model.run no_fix] etc.) *)
+(** ** the open findings: each guard fires on a history on which the property
+    fails, for the tree as it is now *)
 
 Theorem C06_F1_refuted : exists ops meth path,
   wf_history ops = true /\ guard_F1 ops = true /\
-  m_answer (run no_fix ops) meth path <> m_answer (fresh no_fix (current ops)) meth path.
-Proof. exists w_F1, 0, "/x"%string. destruct w_F1_ok as (A & B & C & D). rewrite C, D. repeat split; auto. discriminate. Qed.
+  m_answer (run all_fix ops) meth path <> m_answer (fresh all_fix (current ops)) meth path.
+Proof. exists w_F1, 0, "/x"%string. destruct w_F1_now as (A & B & C & D). rewrite C, D. repeat split; auto. discriminate. Qed.
 Print Assumptions C06_F1_refuted.
 
 Theorem C06_F2_refuted : exists ops meth path,
   wf_history ops = true /\ guard_F2 ops = true /\
-  m_answer (run no_fix ops) meth path <> m_answer (fresh no_fix (current ops)) meth path.
-Proof. exists w_F2, 0, "/y"%string. destruct w_F2_ok as (A & B & C & D). rewrite C, D. repeat split; auto. discriminate. Qed.
+  m_answer (run all_fix ops) meth path <> m_answer (fresh all_fix (current ops)) meth path.
+Proof. exists w_F2, 0, "/y"%string. destruct w_F2_now as (A & B & C & D). rewrite C, D. repeat split; auto. discriminate. Qed.
 Print Assumptions C06_F2_refuted.
-
-(** on the transcribed tree (node compression, key names) *)
-Theorem C06_F3_refuted : exists ops meth path,
-  wf_history ops = true /\ guard_F3 ops = true /\
-  t_answer (t_run ops) meth path <> t_answer (t_run (fresh_ops (current ops))) meth path.
-Proof. exists w_F3, 0, "/a:b"%string. destruct w_F3_ok as (A & B & _ & C & D). rewrite C, D. repeat split; auto. discriminate. Qed.
-Print Assumptions C06_F3_refuted.
-
-Theorem C06_F4_refuted : exists ops meth path,
-  wf_history ops = true /\ guard_F4 ops = true /\
-  m_answer (run no_fix ops) meth path <> m_answer (fresh no_fix (current ops)) meth path.
-Proof. exists w_F4, 0, "/d"%string. destruct w_F4_ok as (A & B & C & D). rewrite C, D. repeat split; auto. discriminate. Qed.
-Print Assumptions C06_F4_refuted.
-
-(** the same defect can end in a Go panic instead of an error *)
-Theorem C06_F4_panic : exists ops s,
-  guard_F4 ops = true /\ snd (t_step no_fix (t_run ops) (Delete s)) = Some EPanic.
-Proof. exists w_F4p, 0. exact w_F4p_ok. Qed.
-Print Assumptions C06_F4_panic.
-
-Theorem C06_F5_refuted : exists ops meth path,
-  wf_history ops = true /\ guard_F5 ops = true /\
-  t_answer (t_run ops) meth path <> t_answer (t_run (fresh_ops (current ops))) meth path.
-Proof. exists w_F5, 0, "/a/1"%string. destruct w_F5_ok as (A & B & C & D). rewrite C, D. repeat split; auto. discriminate. Qed.
-Print Assumptions C06_F5_refuted.
 
 Theorem C06_F6_refuted : exists ops meth path,
   wf_history ops = true /\ guard_dupid ops = true /\
-  m_answer (run no_fix ops) meth path <> m_answer (fresh no_fix (current ops)) meth path.
-Proof. exists w_F6, 0, "/p"%string. destruct w_F6_ok as (A & B & C & D). rewrite C, D. repeat split; auto. discriminate. Qed.
+  m_answer (run all_fix ops) meth path <> m_answer (fresh all_fix (current ops)) meth path.
+Proof. exists w_F6_now, 0, "/p"%string. destruct w_F6_now_ok as (A & B & C & D). rewrite C, D. repeat split; auto. discriminate. Qed.
 Print Assumptions C06_F6_refuted.
 
-(** the witnesses of C06-F3, F4, F5 with the candidate repairs: history = fresh *)
+(** ** the repaired findings C06-F3, F4, F5: witnesses for the pinned commit
+    ([no_fix]; F3 and F5 on the transcribed tree: node compression, key names) *)
+
+Theorem C06_F3_pinned_refuted : exists ops meth path,
+  wf_history ops = true /\ guard_F3 ops = true /\
+  t_answer (t_run ops) meth path <> t_answer (t_run (fresh_ops (current ops))) meth path.
+Proof. exists w_F3, 0, "/a:b"%string. destruct w_F3_ok as (A & B & _ & C & D). rewrite C, D. repeat split; auto. discriminate. Qed.
+Print Assumptions C06_F3_pinned_refuted.
+
+Theorem C06_F4_pinned_refuted : exists ops meth path,
+  wf_history ops = true /\ guard_F4 ops = true /\
+  m_answer (run no_fix ops) meth path <> m_answer (fresh no_fix (current ops)) meth path.
+Proof. exists w_F4, 0, "/d"%string. destruct w_F4_ok as (A & B & C & D). rewrite C, D. repeat split; auto. discriminate. Qed.
+Print Assumptions C06_F4_pinned_refuted.
+
+(** the same defect could end in a Go panic instead of an error *)
+Theorem C06_F4_pinned_panic : exists ops s,
+  guard_F4 ops = true /\ snd (t_step no_fix (t_run ops) (Delete s)) = Some EPanic.
+Proof. exists w_F4p, 0. exact w_F4p_ok. Qed.
+Print Assumptions C06_F4_pinned_panic.
+
+Theorem C06_F5_pinned_refuted : exists ops meth path,
+  wf_history ops = true /\ guard_F5 ops = true /\
+  t_answer (t_run ops) meth path <> t_answer (t_run (fresh_ops (current ops))) meth path.
+Proof. exists w_F5, 0, "/a/1"%string. destruct w_F5_ok as (A & B & C & D). rewrite C, D. repeat split; auto. discriminate. Qed.
+Print Assumptions C06_F5_pinned_refuted.
+
+(** with the repairs the same witnesses pass (models with [all_fix]) *)
 Example C06_repaired_examples :
   m_answer (run all_fix w_F4) 0 "/d" = m_answer (fresh all_fix (current w_F4)) 0 "/d" /\
   t_answer (t_run_fx all_fix w_F3) 0 "/a:b" = t_answer (t_run_fx all_fix (fresh_ops (current w_F3))) 0 "/a:b" /\
@@ -128,13 +141,21 @@ Example C06_repaired_examples :
 Proof. vm_compute. repeat split; reflexivity. Qed.
 Print Assumptions C06_repaired_examples.
 
-(** non-vacuity: a history with three sources, shared prefixes, wildcards, rules
-    sharing an expression, an update changing one of several rules, a rejected
-    creation, an invalid expression, deletion and re-creation satisfies the
-    hypotheses of the theorems above *)
+(** non-vacuity: the hypotheses of the theorems for the tree as it is now hold for
+    (1) a history with three sources, shared prefixes, wildcards, rules sharing an
+    expression, an update changing one of several rules, a rejected creation, an
+    invalid expression, deletion and re-creation, and (2) a history in the
+    territory of the repaired findings (node boundary in front of ':', a path
+    listed twice, a renamed path parameter next to a kept node) *)
 Example C06_nonvacuous :
-  wf_history w_plain = true /\ no_guard_fx no_fix w_plain = true /\
-  length (current w_plain) = 3 /\ length (index (run no_fix w_plain)) = 3 /\
-  m_answer (run no_fix w_plain) 1 "/b/x" = Some 10 /\ m_answer (run no_fix w_plain) 0 "/ab/zz" = Some 50.
-Proof. destruct w_plain_ok as (A & B & _ & C & D & E & _ & F & _). repeat split; assumption. Qed.
+  (wf_history w_plain = true /\ open_guards w_plain = false /\
+   length (index (run all_fix w_plain)) = 3 /\ m_answer (run all_fix w_plain) 1 "/b/x" = Some 10) /\
+  (wf_history w_now = true /\ open_guards w_now = false /\
+   guard_F3 w_now = true /\ guard_F4 w_now = true /\ guard_F5 w_now = true /\
+   length (current w_now) = 3 /\ length (index (run all_fix w_now)) = 3 /\
+   m_answer (run all_fix w_now) 0 "/d" = Some 1 /\ m_answer (run all_fix w_now) 0 "/k/7" = Some 0).
+Proof.
+  destruct w_plain_now as (A & B & C & D). destruct w_now_ok as (E & F & G & H & I & J & K & L & M & _).
+  repeat split; assumption.
+Qed.
 Print Assumptions C06_nonvacuous.
